@@ -141,6 +141,19 @@ async function build (tier) {
       leaves.push({ fam: 'tokens', key: 'tok:' + l.pick.wrap + ':' + body, code: l.pick.wrap === 'fn' ? `function f(a){ ${body} }` : body, file: '/p/app.js', config: 'FULL' })
     }
   }
+  // (i-b) every STRING of <= Lc characters over the characters that steer the lexer (quotes, escapes, comment and
+  // template openers, line terminators incl. U+2028, BOM, NUL, hashbang / private-name / html-comment openers)
+  {
+    const CH = ['a', '1', ' ', '\n', '\r', '\u2028', '\u2029', '\u00a0', '\ufeff', '\u0000', "'", '"', '`', '\\', '/', '*', '$', '{', '}', '(', ')', '[', ']', '#', '!', '<', '-', '>', '?', '.', ':', ';', '=', '+', ',', '@', '\u00f1', '😀', '&', '|', '~', '%']
+    const Lc = thorough ? 4 : 3
+    const rec = (t, n) => {
+      stats.states++
+      if (n > 0) { leaves.push({ fam: 'chars', key: 'chr:' + JSON.stringify(t), code: t, file: '/p/app.js', config: 'FULL' }); if (thorough ? n <= 3 : n <= 2) leaves.push({ fam: 'chars', key: 'chrfn:' + JSON.stringify(t), code: 'function f(a, b) { return a + b ' + t + ' }', file: '/p/app.js', config: 'FULL' }) }
+      if (n === Lc) return
+      for (const c of CH) { stats.transitions++; rec(t + c, n + 1) }
+    }
+    rec('', 0)
+  }
   // (ii) single-token mutants of the seed programs + every prefix
   {
     const seeds = thorough ? SEEDS : SEEDS
@@ -343,7 +356,7 @@ module.exports = {
   requests,
   check,
   timeoutMs: 30000,
-  rule: 'leaves = every token string of length<=L over a 14-token alphabet (raw and inside a function body), every single-token del/dup/substitution/prefix of 40 seed programs, every grammar schema plain and with 1-3 (6) extra pairs of parentheses around operands / assignment target / whole operation, the full product file-name x map-reference x reader-answer x chain x comments x parent-mode, every sequence of <= 4 (5) trailing references/comments/code items x chain x comments, 2^6 option-presence patterns x verbosity spellings + malformed configs, and every byte offset 0..255 of a multi-byte character in leading text; every leaf is one real rewrite call, all are non-trivial (each is a distinct input tuple; distinctness by hash of (code,file,config,vfs,parent-mode))',
+  rule: 'leaves = every token string of length<=L over a 14-token alphabet (raw and inside a function body), every character string of length <= 3 (4) over 42 lexer-steering characters (raw; the shorter ones also inside a function body), every single-token del/dup/substitution/prefix of 40 seed programs, every grammar schema plain and with 1-3 (6) extra pairs of parentheses around operands / assignment target / whole operation, the full product file-name x map-reference x reader-answer x chain x comments x parent-mode, every sequence of <= 4 (5) trailing references/comments/code items x chain x comments, 2^6 option-presence patterns x verbosity spellings + malformed configs, and every byte offset 0..255 of a multi-byte character in leading text; every leaf is one real rewrite call, all are non-trivial (each is a distinct input tuple; distinctness by hash of (code,file,config,vfs,parent-mode))',
   explanation: 'explicit enumeration of the input/fault space executed against the real rewriter (Rust sources of the working tree) under catch_unwind + watchdog; oracle = call returns Ok or Err(non-empty message)',
   assumptions: ['native build of the rewriter (serde_json instead of serde-wasm-bindgen; in-memory FileReader with both the trait-default and a Node-dirname `parent`)', 'pathological nesting depth excluded by the property statement; no deep-nesting inputs are generated', 'watchdog 30 s per call']
 }
